@@ -170,24 +170,40 @@ theorem qos2_needs_pubrec_then_pubcomp (s : St) (hs : Sound s) (e : Ev) (i : Nat
 /-! ### 3. foreign acknowledgements are inert -/
 
 /-- An acknowledgement that finds no waiter (nothing registered under its id, resp. the CONNACK / PINGRESP
-    slot empty) changes nothing at all. -/
-theorem foreign_ack_inert (s : St) (p : In) (hp : p ≠ .malformed) (ht : target s p = none) :
-    inbound s p = s := inbound_no_target s p hp ht
+    slot empty) changes nothing at all.
+    The hypothesis `needsAck s p = false` holds by `rfl` for each of the seven acknowledgement kinds
+    (`isAck_needsAck`); it is there because `In` also has the application messages PUBLISH / PUBREL, which have
+    no waiter (`target s p = none`) either but which the reader answers (`needsAck`: a PUBLISH with QoS ≠ 0, a
+    PUBREL of a remembered id) — for those see `inbound_publish_never_completes_a_call` below and
+    C16 `inbound_publish_inert_when_writable`.  A QoS 0 PUBLISH and an unknown PUBREL are covered here. -/
+theorem foreign_ack_inert (s : St) (p : In) (hp : p ≠ .malformed) (ht : target s p = none)
+    (hn : needsAck s p = false) :
+    inbound s p = s := inbound_no_target s p hp ht hn
+
+/-- the seven acknowledgement kinds, in one statement -/
+theorem foreign_ack_inert' (s : St) (p : In) (hp : isAck p = true) (ht : target s p = none) :
+    inbound s p = s :=
+  foreign_ack_inert s p (by rintro rfl; cases hp) ht (isAck_needsAck s hp)
 
 theorem foreign_puback_inert (s : St) (id : Nat) (h : mapGet s.pubAck id = none) :
-    step s (.inb (.puback id)) = s := foreign_ack_inert s (.puback id) (by simp) h
+    step s (.inb (.puback id)) = s := foreign_ack_inert s (.puback id) (by simp) h rfl
 theorem foreign_pubrec_inert (s : St) (id : Nat) (h : mapGet s.pubRec id = none) :
-    step s (.inb (.pubrec id)) = s := foreign_ack_inert s (.pubrec id) (by simp) h
+    step s (.inb (.pubrec id)) = s := foreign_ack_inert s (.pubrec id) (by simp) h rfl
 theorem foreign_pubcomp_inert (s : St) (id : Nat) (h : mapGet s.pubComp id = none) :
-    step s (.inb (.pubcomp id)) = s := foreign_ack_inert s (.pubcomp id) (by simp) h
+    step s (.inb (.pubcomp id)) = s := foreign_ack_inert s (.pubcomp id) (by simp) h rfl
 theorem foreign_suback_inert (s : St) (id : Nat) (codes : List Nat) (h : mapGet s.subAck id = none) :
-    step s (.inb (.suback id codes)) = s := foreign_ack_inert s (.suback id codes) (by simp) h
+    step s (.inb (.suback id codes)) = s := foreign_ack_inert s (.suback id codes) (by simp) h rfl
 theorem foreign_unsuback_inert (s : St) (id : Nat) (h : mapGet s.unsubAck id = none) :
-    step s (.inb (.unsuback id)) = s := foreign_ack_inert s (.unsuback id) (by simp) h
+    step s (.inb (.unsuback id)) = s := foreign_ack_inert s (.unsuback id) (by simp) h rfl
 theorem unsolicited_connack_inert (s : St) (sp : Bool) (code : Nat) (h : s.connAck = none) :
-    step s (.inb (.connack sp code)) = s := foreign_ack_inert s (.connack sp code) (by simp) h
+    step s (.inb (.connack sp code)) = s := foreign_ack_inert s (.connack sp code) (by simp) h rfl
 theorem unsolicited_pingresp_inert (s : St) (h : s.pingResp = none) :
-    step s (.inb .pingresp) = s := foreign_ack_inert s .pingresp (by simp) h
+    step s (.inb .pingresp) = s := foreign_ack_inert s .pingresp (by simp) h rfl
+/-- a QoS 0 PUBLISH, and a PUBREL whose id is not remembered, change nothing at all -/
+theorem inbound_qos0_publish_inert (s : St) (id : Nat) : step s (.inb (.publish 0 id)) = s :=
+  foreign_ack_inert s (.publish 0 id) (by simp) rfl rfl
+theorem unknown_pubrel_inert (s : St) (id : Nat) (h : id ∉ s.inQ2) : step s (.inb (.pubrel id)) = s :=
+  foreign_ack_inert s (.pubrel id) (by simp) rfl (by simpa [needsAck] using h)
 
 /-- An acknowledgement that IS registered (to call `i`) changes no call other than `i` — except when it
     is a SUBACK with the wrong number of return codes, which ends the connection (`suback_result`). -/
@@ -197,7 +213,9 @@ theorem registered_ack_touches_only_its_call (s : St) (p : In) (i j : Nat) (ht :
 
 /-- An acknowledgement of another kind, or with another id, than the one a blocked call waits for does not
     complete it and does not change it, whoever else it may be registered to
-    (the bad-SUBACK / malformed-packet connection end excepted). -/
+    (the connection ends excepted — bad SUBACK, malformed packet, failed acknowledgement write for an inbound
+    PUBLISH / PUBREL: hypothesis `hlive`).  Inbound application messages are included: for `p = publish _ _`
+    and `p = pubrel _` the hypotheses `hother`, `hnotrec`, `hnotref` hold trivially. -/
 theorem other_ack_does_not_disturb (s : St) (hs : Sound s) (p : In) (i : Nat) (c : Call)
     (hc : s.calls[i]? = some c) (hb : blocked c = true)
     (hother : ∀ r, ¬ OwnAck c (.inb p) r)
@@ -215,6 +233,77 @@ theorem other_ack_does_not_disturb (s : St) (hs : Sound s) (p : In) (i : Nat) (c
   | refused sp code hp1 he h0 hm hi hd => cases he; exact absurd ⟨hp1, sp, code, rfl⟩ hnotref
   | pubrec hp1 hk1 he hm hi hd => cases he; exact absurd ⟨hp1, rfl⟩ hnotrec
   | badSubAck codes n hp1 hk1 hl he hm hd' hi hd => rw [hlive, hd] at hd'; cases hd'
+
+/-- Inbound application messages (PUBLISH, PUBREL) are not acknowledgements of any request: for EVERY state
+    (no well-formedness needed) they leave all call records exactly as they are — unless the reader cannot
+    write the acknowledgement it owes (`ackFails`), which ends the connection and releases every blocked call
+    with ErrClosedTransport (`release`). -/
+theorem inbound_publish_calls (s : St) (p : In) (hp : isApp p = true) :
+    ((step s (.inb p)).calls = s.calls ∧ (step s (.inb p)).doneClosed = s.doneClosed) ∨
+    (s.inited = true ∧ s.doneClosed = false ∧ ackFails s p = true ∧
+      (step s (.inb p)).calls = s.calls.map release ∧ (step s (.inb p)).doneClosed = true) :=
+  inbound_app_calls s p hp
+
+/-- No call returns success (`.ok` / `.okSub`) because of an inbound PUBLISH or PUBREL, in any state:
+    a blocked call is either still exactly as it was, or has returned ErrClosedTransport. -/
+theorem inbound_publish_never_completes_a_call (s : St) (p : In) (hp : isApp p = true) (i : Nat) (c c' : Call)
+    (hc : s.calls[i]? = some c) (hb : blocked c = true) (hc' : (step s (.inb p)).calls[i]? = some c') :
+    (c' = c ∨ c' = { c with phase := .returned (.closed (ctxRetry c.phase)) }) ∧
+    (∀ r, c'.phase = .returned r → isSuccess r = false) := by
+  have key : c' = c ∨ c' = { c with phase := .returned (.closed (ctxRetry c.phase)) } := by
+    rcases inbound_publish_calls s p hp with ⟨h, _⟩ | ⟨_, _, _, h, _⟩
+    · rw [h, hc] at hc'; cases hc'; exact Or.inl rfl
+    · rw [h, List.getElem?_map, hc] at hc'
+      cases hc'
+      right
+      cases c with | mk k id ph =>
+      cases ph <;> first | rfl | (simp [blocked] at hb)
+  refine ⟨key, ?_⟩
+  intro r hr
+  rcases key with rfl | rfl
+  · unfold blocked at hb; rw [hr] at hb; cases hb
+  · cases hr; rfl
+
+/-- the two packet kinds by name -/
+theorem inbound_publish_never_completes (s : St) (q id : Nat) (i : Nat) (c c' : Call)
+    (hc : s.calls[i]? = some c) (hb : blocked c = true)
+    (hc' : (step s (.inb (.publish q id))).calls[i]? = some c') (r : Ret) (hr : c'.phase = .returned r) :
+    isSuccess r = false :=
+  (inbound_publish_never_completes_a_call s _ rfl i c c' hc hb hc').2 r hr
+
+theorem inbound_pubrel_never_completes (s : St) (id : Nat) (i : Nat) (c c' : Call)
+    (hc : s.calls[i]? = some c) (hb : blocked c = true)
+    (hc' : (step s (.inb (.pubrel id))).calls[i]? = some c') (r : Ret) (hr : c'.phase = .returned r) :
+    isSuccess r = false :=
+  (inbound_publish_never_completes_a_call s _ rfl i c c' hc hb hc').2 r hr
+
+/-- ... and a call that has returned keeps its result (`result_final`), so along any run the set of calls
+    that have returned success is the same before and after an application message. -/
+theorem inbound_publish_success_unchanged (s : St) (p : In) (hp : isApp p = true) (i : Nat) (r : Ret)
+    (hsucc : isSuccess r = true) :
+    (∃ c', (step s (.inb p)).calls[i]? = some c' ∧ c'.phase = .returned r) ↔
+    (∃ c, s.calls[i]? = some c ∧ c.phase = .returned r) := by
+  constructor
+  · rintro ⟨c', hc', hr⟩
+    cases hc : s.calls[i]? with
+    | none =>
+      exfalso
+      rcases inbound_publish_calls s p hp with ⟨h, _⟩ | ⟨_, _, _, h, _⟩
+      · rw [h, hc] at hc'; cases hc'
+      · rw [h, List.getElem?_map, hc] at hc'; cases hc'
+    | some c =>
+      cases hb : blocked c with
+      | false =>
+        have := result_final s (.inb p) i c hc hb
+        rw [this] at hc'
+        have : c = c' := Option.some.inj hc'
+        exact ⟨c, rfl, by rw [this]; exact hr⟩
+      | true =>
+        have := (inbound_publish_never_completes_a_call s p hp i c c' hc hb hc').2 r hr
+        rw [hsucc] at this; cases this
+  · rintro ⟨c, hc, hr⟩
+    have hb : blocked c = false := by simp [blocked, hr]
+    exact ⟨c, result_final s (.inb p) i c hc hb, hr⟩
 
 /-! ### 4. the converse: the own acknowledgement completes the call -/
 
@@ -399,6 +488,18 @@ example : phases [.call .connect 0, .inb (.connack false 0), .call .pub1 1, .cal
 -- acknowledgements of the wrong kind for the same id do not complete a call
 example : phases [.call .connect 0, .inb (.connack false 0), .call .pub1 5, .inb (.pubrec 5), .inb (.pubcomp 5),
     .inb (.suback 5 [0]), .inb (.unsuback 5), .inb .pingresp] = [.returned .ok, .waitPubAck] := by decide
+
+-- inbound application messages complete nothing: PUBLISH 5 / PUBREL 5 against a QoS 2 publish with id 5 that
+-- waits for PUBREC, then for PUBCOMP (the ids coincide, the flows are independent)
+example : phases [.call .connect 0, .inb (.connack false 0), .call .pub2 5, .inb (.publish 1 5), .inb (.publish 2 5),
+    .inb (.pubrel 5)] = [.returned .ok, .waitPubRec] := by decide
+example : phases [.call .connect 0, .inb (.connack false 0), .call .pub2 5, .inb (.pubrec 5), .inb (.publish 2 5),
+    .inb (.pubrel 5), .inb (.pubrel 5)] = [.returned .ok, .waitPubComp] := by decide
+example : (run [.call .connect 0, .inb (.connack false 0), .call .pub2 5, .inb (.pubrec 5), .inb (.publish 2 5),
+    .inb (.pubrel 5), .inb (.pubrel 5)]).writes = [.connect, .publish 2 5, .pubrel 5, .pubrec 5, .pubcomp 5] := by decide
+-- ... and when the acknowledgement cannot be written the blocked call fails with ErrClosedTransport
+example : phases [.call .connect 0, .inb (.connack false 0), .call .pub1 5, .writeFail true, .inb (.publish 1 5)] =
+    [.returned .ok, .returned (.closed true)] := by decide
 
 -- SUBACK with the wrong count: ErrInvalidSubAck, the connection ends and the other caller is released
 example : phases [.call .connect 0, .inb (.connack false 0), .call (.sub 2) 4, .call .pub1 9, .inb (.suback 4 [0])] =
